@@ -61,36 +61,57 @@ def compare(a, b):
     return None
 
 
-def tx_ops(toks):
-    """[(kind, store, idhex)] of a transaction token list (after 'TX')"""
+def tx_op_spans(toks):
+    """(index of the op-count token, [(kind, store, idhex, start, end)]) of a transaction token list (after 'TX')"""
     nv = int(toks[2])
     p = 3 + 3 * nv
+    cnt = p
     no = int(toks[p])
     p += 1
     ops = []
     for _ in range(no):
         k = toks[p]
+        start = p
         if k == "FAIL":
-            ops.append((k, "", ""))
+            ops.append((k, "", "", start, p + 1))
             p += 1
             continue
-        ops.append((k, toks[p + 1], toks[p + 2]))
+        store, idh = toks[p + 1], toks[p + 2]
         if k == "D":
             p += 3
-            continue
-        if k in ("AL", "RL"):
+        elif k in ("AL", "RL"):
             p += 5 + int(toks[p + 4])
-            continue
-        p += 4 if k == "C" else 3
-        nf = int(toks[p])
-        p += 1 + 2 * nf
-        ns = int(toks[p])
-        p += 1
-        for _ in range(ns):
-            p += 2 + int(toks[p + 1])
-        if k == "UP":
-            p += 1 if toks[p] == "-" else 1 + int(toks[p])
-    return ops
+        elif k == "FAILT":
+            p += 3
+        else:
+            p += 4 if k == "C" else 3
+            nf = int(toks[p])
+            p += 1 + 2 * nf
+            ns = int(toks[p])
+            p += 1
+            for _ in range(ns):
+                p += 2 + int(toks[p + 1])
+            if k == "UP":
+                p += 1 if toks[p] == "-" else 1 + int(toks[p])
+        ops.append((k, store, idh, start, p))
+    return cnt, ops
+
+
+def tx_ops(toks):
+    """[(kind, store, idhex)] of a transaction token list (after 'TX')"""
+    return [o[:3] for o in tx_op_spans(toks)[1]]
+
+
+def tx_without_op(text, n):
+    """the transaction text without its n-th operation (None when it is the only one)"""
+    toks = text.split()
+    cnt, ops = tx_op_spans(toks)
+    if len(ops) <= 1 or n >= len(ops):
+        return None
+    _, _, _, a, b = ops[n]
+    out = toks[:a] + toks[b:]
+    out[cnt] = str(len(ops) - 1)
+    return " ".join(out)
 
 
 def ents(facts):
@@ -186,8 +207,8 @@ def run_one(case, work, tmp):
     return cs[0], im[0], m[0]
 
 
-def shrink_replays(c, tmp, budget_s=15):
-    """greedy minimisation of the replays of direct violations: drop transactions while the same key reproduces"""
+def shrink_replays(c, tmp, budget_s=20):
+    """greedy minimisation of the replays of direct violations: drop transactions, then single operations, while the same key reproduces"""
     import time
     t0 = time.time()
     seen = set()
@@ -204,7 +225,7 @@ def shrink_replays(c, tmp, budget_s=15):
             continue
         parts = rp["case"].split(" TX ")
         head, txs = parts[0], parts[1:]
-        if len(txs) <= 2:
+        if len(txs) <= 1 and len(tx_ops(txs[0].split())) <= 1:
             continue
 
         def reproduces(cand):
@@ -214,20 +235,35 @@ def shrink_replays(c, tmp, budget_s=15):
             case, i, m = r
             sch, ctx = storefam.split_case(case)
             got = oracle(sch, ctx, storefam.parse_obs(i), storefam.parse_obs(m))
-            return (case, i, m) if any(k == key for k, _, _ in got) else None
+            hit = [tk for k, _, tk in got if k == key]
+            return (case, i, m, hit[0]) if hit else None
 
         best = None
+        n0 = len(txs)
         k = len(txs) - 1
-        while k >= 0 and time.time() - t0 <= budget_s:
+        while k >= 0 and len(txs) > 1 and time.time() - t0 <= budget_s:
             cand = txs[:k] + txs[k + 1:]
             r = reproduces(cand) if cand else None
             if r is not None:
                 txs, best = cand, r
             k -= 1
+        # then single operations inside the remaining transactions (a transaction keeps at least one)
+        dropped = 0
+        for k in range(len(txs) - 1, -1, -1):
+            n = len(tx_ops(txs[k].split())) - 1
+            while n >= 0 and time.time() - t0 <= budget_s:
+                t = tx_without_op(txs[k], n)
+                if t is not None:
+                    cand = txs[:k] + [t] + txs[k + 1:]
+                    r = reproduces(cand)
+                    if r is not None:
+                        txs, best = cand, r
+                        dropped += 1
+                n -= 1
         if best is not None:
             rp["original_case"] = rp["case"]
-            rp["case"], rp["impl"], rp["model"] = best
-            rp["shrunk"] = "greedy removal of transactions; %d remain" % len(txs)
+            rp["case"], rp["impl"], rp["model"], rp["tx"] = best
+            rp["shrunk"] = "greedy removal of transactions (%d of %d remain), then of single operations (%d dropped)" % (len(txs), n0, dropped)
             with open(full, "w") as f:
                 json.dump(rp, f, indent=1, sort_keys=True)
 
@@ -250,7 +286,15 @@ def main(argv):
             "biased to referenced entities / link ops; invalid on purpose: missing target, empty fk, self reference, duplicate id) over the "
             "wirings idx (nullable self fk index, fk index, child store), fkc (fk constraints restrict + cascade), casc (cascade fk index "
             "chain a<-b<-c + restrict) and cyc (self-referencing store and two-store loop under cascade delete: the only stream in which "
-            "reference cycles occur); every second round draws ids from the hostile alphabet. Each history runs in a child process (stack "
+            "reference cycles occur); every second round draws ids from the hostile alphabet. One history in four runs all its "
+            "transactions with ONE shared mutate context; 8 % of the transactions have 4-7 ops; fk values and create ids are drawn with a "
+            "small probability from the ids deleted earlier in the same context; about every seventh transaction position is the life "
+            "cycle of one fk target inside one context over a random fk edge (fk index / nullable / cascade fk index / fk constraint "
+            "restrict or cascade): create or pick the target, reference it (new referrer through the root or a child store, or an "
+            "existing one re-pointed), release (delete, null, re-point, or left to the cascade), delete the target, then reference it "
+            "again (must be refused) or re-create and reference it (must be accepted), as one transaction or cut into consecutive "
+            "transactions of the shared context; plus bounded-exhaustive op sequences (<= 3 of 14 ops) inside one transaction and as "
+            "one-op transactions under the shared context on the self-referencing store. Each history runs in a child process (stack "
             "limit, memory limit, timeout). Compared with the extracted machine: op result kinds, entities, fk field values, back-reference "
             "sets; oracle on the implementation's facts: targets exist, back-reference sets exact, a successful delete removed exactly the "
             "transitive referrers, a refused operation changed nothing, no delete fails with an unclassified error.",
